@@ -247,16 +247,16 @@ func checkAnswer(h *mailbox.DirHandler, m *ref.Model, mid string) (sig, msg stri
 }
 
 type stats struct {
-	executed, skipped  int
-	nontrivial         bool
-	p2pNonEmpty        bool
-	cmsQueries, p2pQ   int
-	afterSent          bool
-	afterDeferPrepare  bool
-	afterRestart       bool
-	unreadOnOut        bool
-	sendOnlySeen       bool
-	failedAt           int
+	executed, skipped   int
+	nontrivial          bool
+	p2pNonEmpty         bool
+	cmsQueries, p2pQ    int
+	afterSent           bool
+	afterDeferPrepare   bool
+	afterRestart        bool
+	unreadOnOut         bool
+	sendOnlySeen        bool
+	failedAt            int
 	rejectSeen, p2ponly bool
 }
 
